@@ -106,5 +106,5 @@ var c02 = &vh.Prop[c02Case]{
 func init() { registrars = append(registrars, c02.Register) }
 
 func TestC02(t *testing.T) {
-	c02.Check(t, vh.N(20000, 50000))
+	c02.Check(t, vh.N(20000, 30000))
 }
